@@ -41,9 +41,15 @@ def bv(m, t):
     return bool(z3.is_true(m.eval(tobool(t), model_completion=True)))
 
 
-def concrete_bytes(nbytes, seed=0, tag=0):
+def concrete_bytes(nbytes, seed=None, tag=0):
     """content is irrelevant to the path (paths depend on lengths only); use a seeded non-periodic pattern so that
     offset mistakes show up in the byte comparison of the replay"""
+    if seed is None:
+        import os
+        try:
+            seed = int(os.environ.get("VERIF_SEED", "0"))
+        except ValueError:
+            seed = 0
     r = random.Random(seed * 7919 + tag)
     return bytes(r.randrange(256) for _ in range(nbytes))
 
